@@ -15,6 +15,10 @@ def job_name(j):
     s = '%s-%s-%s-v%s-N%d' % (j['fmt'], j['kind'], j.get('position', 'all'), j['version'], j['N'])
     if j.get('multi'):
         s += '-multi'
+    if j.get('extra'):
+        s += '-' + j['extra']
+    if j.get('alphabet'):
+        s += '-meta'
     if j.get('split'):
         s += '-c0in%x_%x' % (j['split'][0][0], j['split'][-1][1])
     return s
@@ -23,7 +27,7 @@ def job_name(j):
 def expand_split(jobs):
     out = []
     for j in jobs:
-        if j['N'] >= 2 and j['fmt'] == 'zinc' and not j.get('split'):
+        if j['N'] >= 2 and j['fmt'] == 'zinc' and not j.get('split') and not j.get('alphabet'):
             from .textworker import ALPHABET
             alpha = ALPHABET.get(j['kind'])
             for dom in FIRST_CHAR_SPLIT:
